@@ -100,17 +100,20 @@ CLAIMED['C03'] = dict(
 
 CLAIMED['C16'] = dict(
     text='Unbounded proof over the real source of blocks._split_bytecode (partition: the concatenation of the blocks is the instruction '
-         'list, every block non-empty, every resolved jump target that is an instruction of the code starts a block) and of '
-         'cfg_utils.order_nodes (execution order: starts at the entry, lists no block twice, every later block has a predecessor '
-         'earlier in the list, and the listed set is exactly the set reachable from the entry). The 3.12 async-for/yield-from block '
-         'surgery, opcode construction (indices, next/prev links, target resolution) and the edge construction in compute_order are '
-         'covered only by a bounded sweep: every clause of C16 evaluated on every code object of the CPython 3.12 standard library '
-         'sources through the real pipeline.',
-    note='Trusted: engine/, z3, A-ATTR (opcode/block attributes are stable reads), A-LFP (graph reachability axiomatised as a least fixed '
-         'point), A-LIB (min over a generator returns some element), preconditions: consistent next-links, no SEND/GET_ANEXT under 3.12, '
-         'node list closed under outgoing edges. The final assert of order_nodes (needs the exact closure computed by compute_predecessors) '
-         'is not proved. Unverified surround: opcodes.build_opcodes, add_pop_block_targets, async surgery, compute_order, compute_predecessors.',
-    technique='contract-based deductive verification: Python ast -> VC generator (loop invariants, ghost cut points, least-fixed-point schema) -> z3; bounded native sweep for the surround',
+         'list, every block non-empty, every resolved jump target that is an instruction of the code starts a block), of blocks.compute_order '
+         '(edges: every block gets the fall-through edge unless its last instruction has no successor, and the edges to the blocks that start '
+         'at the target of its first instruction, the target and the block_target of its last instruction; incoming mirrors outgoing; no KeyError; '
+         'blocks are heap objects mutated through aliases) and of cfg_utils.order_nodes (execution order: starts at the entry, lists no block twice, '
+         'every later block has a predecessor earlier in the list, the listed set is exactly the set reachable from the entry). The 3.12 '
+         'async-for/yield-from block surgery and opcode construction (indices, next/prev links, target resolution) are covered only by a '
+         'bounded sweep: every clause of C16 evaluated on every code object of the CPython 3.12 standard library through the real pipeline. '
+         'Known finding F10: the exception-edge block of a SEND loop is dropped on purpose.',
+    note='Trusted: engine/ (incl. the heap model of Block objects), z3, A-ATTR (opcode attributes are stable reads), A-LFP (graph reachability '
+         'axiomatised as a least fixed point), A-LIB (min over a generator returns some element), preconditions: consistent next-links, no '
+         'SEND/GET_ANEXT under 3.12 for the splitter, python_version < 3.12 for compute_order (same edge loop for all versions), block_target '
+         'of a last instruction starts a block, node list closed under outgoing edges. Not proved: the final assert of order_nodes, and that '
+         'compute_order adds no other edges. Unverified surround: opcodes.build_opcodes, add_pop_block_targets, async surgery, compute_predecessors.',
+    technique='contract-based deductive verification: Python ast -> VC generator (loop invariants, ghost cut points, heap model, least-fixed-point schema) -> z3; bounded native sweep for the surround',
     design='3 C16')
 
 CLAIMED['C11'] = dict(
